@@ -320,7 +320,7 @@ pub fn run_c07_raw(case: &Case) -> Outcome {
 
 pub fn c07(ctx: &Ctx, rep: &mut Report) {
     rep.rule = "concurrent opens from both sides with arbitrary host bytes (0..300) and ports, max_flow_id_retries 1..4, scripted id sequences over {0,1,2,3} (collisions with live flows - established streams, pending stream requests and pending bind requests -, with the peer's simultaneous choice, id 0); \
-                a raw peer that rejects the first k Connects and injects Connects with id 0 / live ids; a non-reading-peer family for the initial credit. Oracle: one request = one accepted stream with exactly the requested host/port, \
+                a raw peer that rejects the first k Connects and injects Connects with id 0 / live ids; a non-reading-peer family for the initial credit (all 64 pairs of windows 1..64, and windows 65535/65536/65537/70000). Oracle: one request = one accepted stream with exactly the requested host/port, \
                 no Connect with id 0 or a live id, Reset for id 0 / in-use ids, exactly min(k+1,retries) attempts and FlowIdRejected iff k >= retries, initial credit == advertised window. \
                 Non-trivial = a forced collision/rejection occurred or >= 2 opens were in flight at once. Distinct = distinct case value."
         .into();
@@ -343,6 +343,44 @@ pub fn c07(ctx: &Ctx, rep: &mut Report) {
             }
         },
         run_c07_credit,
+    );
+    // windows at and above the 16-bit boundary (the window field is 32 bits wide): same oracle, one writing end
+    const BIGW: [u32; 4] = [65_535, 65_536, 65_537, 70_000];
+    ctx.enumerate(
+        rep,
+        "initial-credit-large-window",
+        (BIGW.len() * 2) as u64,
+        4,
+        |i| {
+            let (w, side) = (BIGW[(i % 4) as usize], (i / 4) as usize);
+            // the acceptor advertises w, the opener a small window; only the opener writes (w + 3 one-byte writes, nobody reads)
+            let mut opts = [OptsSpec { rwnd: 2, thr: 1, ..OptsSpec::default() }, OptsSpec { rwnd: 2, thr: 1, ..OptsSpec::default() }];
+            opts[1 - side] = OptsSpec { rwnd: w, thr: 64, ..OptsSpec::default() };
+            Case {
+                opts,
+                streams: vec![StreamSpec { side, port: 1, pad: vec![], delay: 0, park: None, ends: [EndScript { w: vec![WOp::Write(1); w as usize + 3], r: vec![] }, EndScript { w: vec![], r: vec![] }] }],
+                step_bound: 2_000_000,
+                ..Case::default()
+            }
+        },
+        |case| {
+            let run = run_case(case);
+            if !run.quiescent {
+                return inconclusive(&run);
+            }
+            let a = Analysis::new(case, &run);
+            let s = &a.streams[0];
+            if s.open_ok_at.is_none() {
+                viol!(a, "c07-open-failed", "stream not established: {:?}", s.open_err);
+            }
+            let peer_side = side_of_end(&case.streams[0], 1);
+            let want = case.opts[peer_side].rwnd as usize;
+            let got = s.ends[0].nonempty_writes;
+            if got != want {
+                viol!(a, "c07-initial-credit", "{got} writes completed against a non-reading peer that advertised a window of {want}");
+            }
+            Outcome::pass(true, vec!["initial-credit-large-window"])
+        },
     );
 }
 
@@ -647,13 +685,59 @@ pub fn run_c06_raw(case: &Case) -> Outcome {
 pub fn c06(ctx: &Ctx, rep: &mut Report) {
     rep.rule = "rounds (2-8) of open/close cycles separated by quiescence, every order of write/shutdown/drop/read on the two ends, flow ids scripted from {0,1,2,3} so that a freed id is proposed again at once, 0-2 bystander streams (ids >= 100) exchanging data in every round; \
                 oracle: C02/C03/C05 oracles on everything, bystanders complete, and a model of which ids each endpoint must still hold, replayed against the Connect frames on the wire: a freed id must be chosen again by its owner (no leaked local slot) and acknowledged by the peer (no leaked peer slot). \
-                Raw-peer family: after each close order a raw Connect on the same id must be acknowledged. Non-trivial = an id was reused after a close, or a drop happened with data in flight in the other direction. Distinct = distinct case value."
+                Raw-peer family: after each close order a raw Connect on the same id must be acknowledged. Burst family: 2..300 streams aborted in the same instant must each be reset and reach end-of-stream at the peer. Non-trivial = an id was reused after a close, or a drop happened with data in flight in the other direction. Distinct = distinct case value."
         .into();
     rep.assumptions = sim_assumptions();
     rep.assumptions.push("ids are reused only after both applications let go of the old stream (the property's precondition); reuse while one application still holds a dead stream handle is not generated".into());
     let t = ctx.tier;
     ctx.prop(rep, "cycles", t.pick(25_000, 800_000), 300, || with_keepalive(c06_case()), run_c06);
     ctx.prop(rep, "raw-probe", t.pick(20_000, 400_000), 200, c06_raw_case, run_c06_raw);
+    // many streams aborted in the same instant (the owner of N streams goes away): every one of them must be reset on the
+    // wire and reach end-of-stream at the peer, whatever N is
+    const BURST: [usize; 6] = [2, 33, 34, 65, 130, 300];
+    ctx.enumerate(
+        rep,
+        "burst-abort",
+        (BURST.len() * 2) as u64,
+        4,
+        |i| {
+            let (n, side) = (BURST[(i % 6) as usize], (i / 6) as usize);
+            let streams = (0..n)
+                .map(|_| StreamSpec {
+                    side,
+                    port: 9,
+                    pad: vec![],
+                    delay: 0,
+                    park: None,
+                    ends: [EndScript { w: vec![WOp::Write(1), WOp::Park(1), WOp::Drop], r: vec![] }, EndScript { w: vec![], r: vec![ROp::ToEof(64)] }],
+                })
+                .collect();
+            let o = OptsSpec { rwnd: 2, thr: 1, stream_buf: 512, ..OptsSpec::default() };
+            Case { opts: [o.clone(), o], streams, events: vec![RawEvent { when: Trigger::Quiescent, what: What::Wake(1) }], step_bound: 3_000_000, ..Case::default() }
+        },
+        |case| {
+            let run = run_case(case);
+            if !run.quiescent {
+                return inconclusive(&run);
+            }
+            let a = Analysis::new(case, &run);
+            if let Err((sig, msg)) = a.integrity().and_then(|_| a.end_of_stream()) {
+                viol!(a, format!("burst:{sig}"), "{} streams aborted at once: {msg}", case.streams.len());
+            }
+            let side = case.streams[0].side;
+            let ids: BTreeSet<u32> = a.streams.iter().filter_map(|s| s.flow_id).collect();
+            let reset: BTreeSet<u32> = run.events.iter().filter_map(|e| if let Ev::Sent { side: s, msg: WMsg::Frame(RFrame::Reset { id }), .. } = &e.ev { if *s == side { Some(*id) } else { None } } else { None }).collect();
+            let missing: Vec<String> = ids.difference(&reset).map(|i| format!("{i:08x}")).collect();
+            if ids.len() != case.streams.len() || !missing.is_empty() {
+                viol!(a, "c06-abort-without-reset", "{} streams established and aborted in the same instant, but no Reset was transmitted for {} of them ({:?} ...)", case.streams.len(), missing.len(), &missing[..missing.len().min(4)]);
+            }
+            let stuck = a.unfinished(perpetual);
+            if !stuck.is_empty() {
+                viol!(a, "c06-burst-abort-stuck", "{} tasks never finished after the burst of aborts: {:?} ...", stuck.len(), &stuck[..stuck.len().min(4)]);
+            }
+            Outcome::pass(case.streams.len() > 32, vec!["burst-abort"])
+        },
+    );
 }
 
 // =================================================================== C15
